@@ -97,7 +97,7 @@ def principal_moments(x, m):
     return w, v, y
 
 
-def gen_molecule(rng: random.Random, kind: str, n_atoms: int) -> list:
+def gen_molecule(rng: random.Random, kind: str, n_atoms: int, dummy_ok: bool = False) -> list:
     if kind == "single":
         return [(rng.choice(ELEMENTS), 0.3, -0.2, 0.1)]
     if kind == "linear":
@@ -109,6 +109,10 @@ def gen_molecule(rng: random.Random, kind: str, n_atoms: int) -> list:
     for i in range(n_atoms):
         z = 0.0 if kind == "planar" else round(rng.uniform(-1.6, 1.6), 3)
         atoms.append((rng.choice(ELEMENTS), round(rng.uniform(-1.8, 1.8), 3), round(rng.uniform(-1.8, 1.8), 3), z))
+    if dummy_ok and n_atoms >= 2 and rng.random() < 0.2:
+        # a virtual site (TIP4P MW, lone pair): MDAnalysis guesses mass 0 for it, the centre of mass ignores it
+        k = rng.randrange(1, n_atoms)
+        atoms[k] = (rng.choice(["MW", "LP", "X"]),) + tuple(atoms[k][1:])
     return atoms
 
 
@@ -180,7 +184,7 @@ class PseudotrajCheck(Check):
         kind = rng.choice(["single", "linear", "planar", "generic", "generic"])
         n = rng.randint(2, 12)
         return {"source": "gen", "fmt": rng.choice(["gro", "xyz", "pdb"]), "kind": kind,
-                "atoms": gen_molecule(rng, kind, n)}
+                "atoms": gen_molecule(rng, kind, n, dummy_ok=True)}
 
     def _gen_rows(self, rng, tier):
         if rng.random() < 0.3:
@@ -326,7 +330,12 @@ class PseudotrajCheck(Check):
                 with lib_call("PtWriter.write_full_pt_in_directory"):
                     w.write_full_pt_in_directory(paths, os.path.join(d, "structure.gro"))
                 for k, pth in enumerate(paths):
-                    judge(mda.Universe(pth).atoms.positions, k, 1e-3, f"single-frame file {os.path.basename(pth)}")
+                    # parsed by hand (last three numbers of every atom line): MDAnalysis writes an empty element
+                    # column for virtual sites, which its own xyz reader then refuses
+                    with open(pth) as f:
+                        lines = f.read().splitlines()
+                    pos = np.array([[float(x) for x in ln.split()[-3:]] for ln in lines[2:2 + int(lines[0])]])
+                    judge(pos, k, 1e-3, f"single-frame file {os.path.basename(pth)}")
                 probes["xyz_directory_roundtrip"] = 1
                 checked += len(rows)
             log.add("ptwriter", sc["out"], len(rows), digest_array(np.asarray(exp[-1])))
@@ -655,7 +664,7 @@ class AssignmentCheck(Check):
                 "order_seed": rng.randrange(2 ** 31), "dup": rng.sample(range(7), rng.choice([0, 0, 1, 3]))}
         common = {"grid": {"b": b, "o": o, "t": t}, "mol1": mol1, "mol2": mol2, "pool": pool,
                   "include_outliers": rng.random() < 0.25, "cartesian_flag": rng.random() < 0.5,
-                  "rng_init": rng.randrange(2 ** 32)}
+                  "box": rng.choice([None, None, 8.0, 10.0, 30.0, 100.0]), "rng_init": rng.randrange(2 ** 32)}
         if rng.random() < 0.15:
             via_files = rng.random() < 0.5
             if via_files and mol2.get("kind") == "planar":
@@ -744,7 +753,14 @@ class AssignmentCheck(Check):
                 coords = np.array([np.vstack([ref1, place(ref2, m2, f[3:], f[:3])]) + shift for f in frames],
                                   dtype=np.float32)
                 merged = Merge(u1.atoms, u2.atoms)
-                traj = Universe(merged._topology, coords, format=MemoryReader)
+                if sc.get("box"):
+                    # real MD trajectories carry a periodic box; the property is about the placement, not the box
+                    L = float(sc["box"])
+                    traj = Universe(merged._topology, coords, format=MemoryReader,
+                                    dimensions=np.array([L, L, L, 90.0, 90.0, 90.0], dtype=np.float32))
+                    probes["trajectory_with_box"] = 1
+                else:
+                    traj = Universe(merged._topology, coords, format=MemoryReader)
                 stop = sc.get("stop")
                 if np.any(shift != 0):
                     probes["whole_system_shifted"] = 1
